@@ -240,10 +240,10 @@ def led__arrow_operator(self: XPathToken, left: XPathToken) -> XPathToken:
     elif isinstance(next_token, ProxyToken):
         self.parser.parse_arguments = False
         try:
+            self.parser.advance()  # the proxy resolves the name by looking at the token that follows
             self[:] = left, next_token.nud()
         finally:
             self.parser.parse_arguments = True
-        self.parser.advance()
     elif isinstance(next_token, XPathFunction):
         self[:] = left, next_token
         if next_token.label == 'kind test':
